@@ -109,12 +109,59 @@ static void option_shapes(long idx, Rng& r) {
     catch (const malformed_packet&) { cnt("option_shape_reparse_rejected(C04's business)"); }
 }
 
+// ---- variable-length header elements that are not options (record lists, extension objects, padding) ---------
+static void element_shapes(long idx, Rng& r) {
+    u32 which = (u32)(idx % 6); std::unique_ptr<PDU> root; std::string d;
+    auto ip6 = [&]() { Bytes b = r.bytes(16); return IPv6Address(b.data()); };
+    try {
+        switch (which) {
+            case 0: { ICMPv6* c = new ICMPv6(ICMPv6::MLD2_REPORT); ICMPv6::multicast_address_records_list l; u32 n = 1 + r.below(3); d = "ICMPv6 MLDv2 report records:";
+                      for (u32 i = 0; i < n; ++i) { ICMPv6::multicast_address_record m; m.type = (u8)(1 + r.below(6)); m.multicast_address = ip6(); for (u32 k = r.below(4); k--;) m.sources.push_back(ip6()); m.aux_data = r.bytes(r.below(14)); d += " (sources=" + std::to_string(m.sources.size()) + ",aux=" + std::to_string(m.aux_data.size()) + ")"; l.push_back(m); }
+                      c->multicast_address_records(l); if (r.chance(1, 3)) c->source_link_layer_addr(HWAddress<6>("00:01:02:03:04:05"));
+                      root.reset(new EthernetII(EthernetII() / IPv6("::1", "::2"))); root->inner_pdu()->inner_pdu(c); break; }
+            case 1: { ICMP* c = new ICMP(r.chance(1, 2) ? ICMP::TIME_EXCEEDED : ICMP::DEST_UNREACHABLE); u32 n = 1 + r.below(3); d = "ICMP extensions:";
+                      for (u32 i = 0; i < n; ++i) { ICMPExtension e(r.byte(), r.byte()); Bytes pl = r.bytes(r.below(23)); e.payload(pl); d += " payload=" + std::to_string(pl.size()); c->extensions().add_extension(e); }
+                      if (r.chance(1, 2)) { MPLS m; m.label(r.below(1 << 20)); c->extensions().add_extension(m); d += " +mpls"; }
+                      u32 inner = r.below(5) == 0 ? 0 : r.below(200); if (inner) { Bytes b = r.bytes(inner); c->inner_pdu(new RawPDU(b.data(), (u32)b.size())); } d += " inner=" + std::to_string(inner);
+                      if (r.chance(1, 3)) c->use_length_field(r.chance(1, 2));
+                      root.reset(new EthernetII()); root->inner_pdu(new IP("1.2.3.4", "4.3.2.1")); root->inner_pdu()->inner_pdu(c); break; }
+            case 2: { ICMPv6* c = new ICMPv6(r.chance(1, 2) ? ICMPv6::TIME_EXCEEDED : ICMPv6::DEST_UNREACHABLE); u32 n = 1 + r.below(3); d = "ICMPv6 extensions:";
+                      for (u32 i = 0; i < n; ++i) { ICMPExtension e(r.byte(), r.byte()); Bytes pl = r.bytes(r.below(23)); e.payload(pl); d += " payload=" + std::to_string(pl.size()); c->extensions().add_extension(e); }
+                      u32 inner = r.below(5) == 0 ? 0 : r.below(200); if (inner) { Bytes b = r.bytes(inner); c->inner_pdu(new RawPDU(b.data(), (u32)b.size())); } d += " inner=" + std::to_string(inner);
+                      if (r.chance(1, 3)) c->use_length_field(r.chance(1, 2));
+                      root.reset(new EthernetII(EthernetII() / IPv6("::1", "::2"))); root->inner_pdu()->inner_pdu(c); break; }
+            case 3: { RTP* t = new RTP(); u32 nc = r.below(16), ne = r.below(9), pad = r.below(3) ? 0 : 1 + r.below(40); d = "RTP csrc=" + std::to_string(nc) + " ext_words=" + std::to_string(ne) + " padding=" + std::to_string(pad);
+                      for (u32 i = 0; i < nc; ++i) t->add_csrc_id((u32)r.next());
+                      if (ne || r.chance(1, 4)) { t->extension_bit(1); t->extension_profile((u16)r.next()); for (u32 i = 0; i < ne; ++i) t->add_extension_data((u32)r.next()); }
+                      if (pad) t->padding_size((u8)pad);
+                      u32 inner = r.below(60); if (inner) { Bytes b = r.bytes(inner); t->inner_pdu(new RawPDU(b.data(), (u32)b.size())); }
+                      root.reset(new EthernetII(EthernetII() / IP("1.2.3.4", "4.3.2.1") / UDP(5004, 5004))); root->inner_pdu()->inner_pdu()->inner_pdu(t); break; }
+            case 4: { IPSecAH* ah = new IPSecAH(); Bytes icv = r.bytes(4 * r.below(8) + (r.chance(1, 4) ? r.below(4) : 0)); ah->icv(icv); d = "IPSecAH icv=" + std::to_string(icv.size());
+                      u32 inner = r.below(40); if (inner) { Bytes b = r.bytes(inner); ah->inner_pdu(new RawPDU(b.data(), (u32)b.size())); }
+                      root.reset(new EthernetII()); root->inner_pdu(new IP("1.2.3.4", "4.3.2.1")); root->inner_pdu()->inner_pdu(ah); break; }
+            default: { IPv6* v6 = new IPv6("::1", "::2"); u32 n = 1 + r.below(4); d = "IPv6 extension headers:";
+                      static const IPv6::ExtensionHeader hs[] = {IPv6::HOP_BY_HOP, IPv6::DESTINATION_ROUTING_OPTIONS, IPv6::ROUTING, IPv6::FRAGMENT, IPv6::MOBILITY};
+                      for (u32 i = 0; i < n; ++i) { Bytes b = r.bytes(r.chance(1, 2) ? 6 + 8 * r.below(4) : r.below(30)); v6->add_header(IPv6::ext_header(hs[r.below(5)], b.begin(), b.end())); d += " len=" + std::to_string(b.size()); }
+                      u32 inner = r.below(40); if (inner) { Bytes b = r.bytes(inner); v6->inner_pdu(new RawPDU(b.data(), (u32)b.size())); }
+                      root.reset(new EthernetII()); root->inner_pdu(v6); }
+        }
+    } catch (const exception_base&) { cnt("element_shape_refused_by_setter:" + std::to_string(which)); return; }
+    describe_case("element-shape " + d);
+    static const char* nm[] = {"ICMPv6.mld2", "ICMP.extensions", "ICMPv6.extensions", "RTP", "IPSecAH", "IPv6.ext_headers"};
+    cnt(std::string("element_shapes:") + nm[which]);
+    Bytes y = check_packet(root.get(), "element-shape " + d);
+    if (y.empty()) return;
+    std::string log; for (u32 k = r.below(3); k--;) edit(root.get(), r, log);
+    if (!log.empty()) { check_packet(root.get(), "element-shape " + d + " after edits: " + log); cnt("serializations_after_edit"); }
+}
+
 int main(int argc, char** argv) {
     register_all();
     return vf::run(argc, argv, "C02", [&](long idx, Rng& r) {
         const Args& a = st().a;
         struct Fin { ~Fin() { cnt("hook_layer_serializations", g_layers); g_layers = 0; for (auto& t : g_types_seen) cnt("hooked_type:" + t); g_types_seen.clear(); } } fin;
         if (a.mode == "options") { option_shapes(idx, r); return; }
+        if (a.mode == "elements") { element_shapes(idx, r); return; }
         if (a.mode == "built") {
             PktGen g(r); int rk = 0; std::unique_ptr<PDU> p(g.packet(&rk));
             describe_case("built: " + g.trace);
